@@ -164,6 +164,7 @@ func c18CheckHistory(c c18HCase) h.Result {
 	}
 	r.Eval(rep.Linearized + rep.InvariantsOK)
 	// evidence: how much real overlap and how many evictions the runs had
+	r.Class(C18CPUBucket(rep.MaxRepCPUms))
 	r.Class("overlap-pairs(max over reps):"+c18Bucket(rep.MaxOverlap), "evictions(min over reps):"+c18Bucket(rep.MinEvict))
 	switch {
 	case rep.RepsOverlap == 0:
@@ -430,7 +431,11 @@ func TestC18ChildHistory(t *testing.T) {
 	env := c18HNewEnv()
 	rep := C18Report{MinEvict: 1 << 30}
 	for i := 0; i < reps; i++ {
-		hist, viol := c18HRun(c, env, i)
+		var (
+			hist []c18Rec
+			viol *C18Viol
+		)
+		C18Guard(&rep, fmt.Sprintf("history repetition %d", i), func() { hist, viol = c18HRun(c, env, i) })
 		if viol != nil {
 			rep.Viol = viol
 			break
